@@ -20,7 +20,7 @@ func init() {
 			"SERVE the handler refuses misaligned offsets, serves archive[(tso-origin)/2016] iff tso < offset (index in range by CONTIG) and otherwise the builder's result; ROTATE in one critical section the record built for the pre-increment offset is appended to the archive and written with one append-mode Write " +
 			"(a failure stops the process), for every device copy(a[:2016], a[2016:]) precedes copy(a[2016:], zeros) with exactly these bounds, for reports and impact rates, and the offset advances by 2016 exactly once; CONTIG offset == 2016*len(archive) (every writer of the offset is the rotation or the loader); " +
 			"IMMUTABLE no instruction anywhere stores through a value that may originate from the archive list (only whole-record appends write it), so a served record cannot be changed by any request (origin classes follow slice headers copied out under the lock); the statistics file is only opened in append mode. " +
-			"COVER AllDeviceStats.SigningBytes covers the number of devices and every field of every device record at full width, and the timeslot offset. NOT decided: equality of the served JSON with an independent encoder; histories as such; that rotation happens at the right time (C20).",
+			"COVER AllDeviceStats.SigningBytes covers the number of devices and every field of every device record at full width, and the timeslot offset. the device-table rules of C06 are re-run (a ban removes the id from the report map the builder ranges over). NOT decided: equality of the served JSON with an independent encoder; histories as such; that rotation happens at the right time (C20).",
 		Assumptions: append([]string{"glow.Sign is deterministic (RFC 6979, trusted)"}, baseAssumptions...),
 		Run:         runC03,
 	})
@@ -51,6 +51,9 @@ func runC03(c *an.Ctx) {
 	c.Floor("CONTIG", 2)
 	rotateRules(c, cg)
 	immutableRules(c)
+	// "each device that is authorized and not banned when the record is produced": the builder ranges over the report
+	// map, so a ban must remove the id from it (device-table rules owned by C06, re-run)
+	authTableRules(c, "C03")
 }
 
 func buildRules(c *an.Ctx, fn *ssa.Function) {
